@@ -171,6 +171,19 @@ func (vc *VC) checkedGoal(ctx *SpecCtx, e SExpr) (string, string) {
 	return g, ""
 }
 
+// assumedClause evaluates a clause of a callee's contract in a position where it is ASSUMED. A
+// clause that cannot be evaluated against the callee's current signature (a parameter it names is
+// gone, the result has another shape) contributes nothing: the error is kept (engine error unless
+// real violations are reported) and the possibly ill-sorted term is not emitted.
+func (vc *VC) assumedClause(ctx *SpecCtx, e SExpr) string {
+	n := len(vc.errs)
+	g := ctx.evalBool(e)
+	if len(vc.errs) > n {
+		return "true"
+	}
+	return g
+}
+
 func (vc *VC) siteName(kind string) string {
 	vc.sites[kind]++
 	return fmt.Sprintf("%s#%d", kind, vc.sites[kind])
